@@ -642,6 +642,16 @@ fn c07_regions(g: &Arc<Grammar>, d: usize, cfgs: &[Cfg], all_spellings: bool) ->
                         // (an inline toggle comment lengthens the last line of the prefix)
                         let pl = if boundary[i] && own_line { Some(prefix_len) } else { None };
                         o3::c07(&x, pl, c, ctx);
+                        if j == n {
+                            // the closing toggle is the last token of the file: whatever blanks follow it,
+                            // formatting is on again and the end of the file is canonical
+                            for tail in ["", "\n\n\n", "  ", "\n  \n", "\r\n\r\n"] {
+                                let mut y = x.trim_end_matches('\n').to_string();
+                                y.push_str(tail);
+                                ctx.sub_eval();
+                                o3::c07_eof(&y, None, true, c, ctx);
+                            }
+                        }
                         if j == n + 1 {
                             // a region that runs to the end of the file: ends of the file without a final
                             // line terminator (after the toggle itself, a line comment, code, blanks)
@@ -1340,6 +1350,10 @@ pub fn families(check: &str, tier: &str) -> Vec<Box<dyn Family>> {
         "C02" => {
             if quick {
                 vec![
+                    tf("c02", Texts { name: "line-comment x line-end x successor".into(), items: crate::alphabet::comment_sequences() }, &C_QUICK[..3], Box::new(|x, c, ctx| {
+                        let out = ctx.fmt(c, x);
+                        o2::c02(x, &out, c, ctx);
+                    })),
                     prog_variants("c02", &g(2), 2, &C_QUICK, vo_base, f_c02),
                     prog_variants("c02", &g(1), 1, &C_QUICK[..3], vo_all, f_c02),
                     seed_texts("c02", &wf_seeds(), &C_QUICK, f_c02),
@@ -1351,6 +1365,10 @@ pub fn families(check: &str, tier: &str) -> Vec<Box<dyn Family>> {
                 ]
             } else {
                 vec![
+                    tf("c02", Texts { name: "line-comment x line-end x successor".into(), items: crate::alphabet::comment_sequences() }, &C_QUICK, Box::new(|x, c, ctx| {
+                        let out = ctx.fmt(c, x);
+                        o2::c02(x, &out, c, ctx);
+                    })),
                     prog_variants("c02", &g(3), 3, &C_QUICK[..3], vo_base, f_c02),
                     prog_variants("c02", &g(2), 2, &C_QUICK, vo_all, f_c02),
                     prog_variants("c02", &g(2), 2, &full, vo_base, f_c02),
